@@ -635,6 +635,188 @@ def exhaustive_small():
     return out
 
 
+# ---- sim mode: host software inside a real turmoil::Sim ---------------------
+#
+# A sim case is converted, together with its observations, into the equivalent
+# direct-mode command list (explicit clock, global descriptor / ring numbers,
+# the consumer loop `await_cqe` unrolled into cq_new / sync / next / readable),
+# so that model rendering, comparison and oracle are shared with direct mode.
+
+def _shift(cmd, fd_off, ring_off):
+    c = json.loads(json.dumps(cmd))
+    n = c[0]
+    if n in ("close", "sread", "swrite", "ssync"):
+        c[1] += fd_off
+    elif n in ("drop_ring", "submit", "cq_new", "sync", "next", "readable", "sqinfo", "await_cqe"):
+        c[1] += ring_off
+    elif n == "push":
+        c[1] += ring_off
+        if c[2][0] != "cancel" and c[2][1] < 100:
+            c[2][1] += fd_off
+    return c
+
+
+def sim_to_direct(case, obs):
+    cfg = case["cfg"]
+    tick = cfg["tick_ns"]
+    script, out = [], []
+    fd_off = ring_off = 0
+    nfd = nring = 0
+    pending = None          # (shifted cmd) of an await_cqe not yet completed
+    problems = []
+    for k, (st, outs) in enumerate(zip(case["script"], obs["obs"])):
+        script.append(["now", k * tick])
+        out.append(None)
+        if st.get("ctl") == "crash":
+            script.append(["crash"])
+            out.append(None)
+            pending = None
+        elif st.get("ctl") == "bounce":
+            fd_off, ring_off = nfd, nring
+        outs = list(outs)
+        cmds = [_shift(c, fd_off, ring_off) for c in st.get("cmds", [])]
+        if pending is not None:
+            cmds = [pending] + cmds
+            pending = None
+        for c in cmds:
+            if c[0] == "await_cqe":
+                if not outs:
+                    # still waiting at the end of this step: it was not ready at this step
+                    script.append(["readable", c[1]])
+                    out.append(0)
+                    pending = c
+                    break
+                o = outs.pop(0)
+                if not isinstance(o, dict):
+                    problems.append("await_cqe returned %s" % o)
+                    continue
+                first = True
+                for (stp, vis, cqe) in o["iters"]:
+                    if stp != k and not first:
+                        problems.append("await iteration at step %d reported in step %d" % (stp, k))
+                    if not first or stp == k:
+                        if not first:
+                            script.append(["readable", c[1]])
+                            out.append(1)
+                        script += [["cq_new", c[1]], ["sync", c[1]], ["next", c[1]]]
+                        out += [None, [vis, vis == 0], cqe]
+                    first = False
+                if o["iters"] and o["iters"][-1][2] is None:
+                    pending = c
+                    break
+                continue
+            if not outs:
+                problems.append("step %d: command %s was not executed" % (k, c))
+                break
+            script.append(c)
+            out.append(outs.pop(0))
+            if c[0] == "open":
+                nfd += 1
+            if c[0] == "new" and c[1] > 0:
+                nring += 1
+        if outs:
+            problems.append("step %d: %d unexplained outputs" % (k, len(outs)))
+    dcfg = dict(cfg)
+    dcfg["mode"] = "direct"
+    dcase = {"cfg": dcfg, "script": script, "full_drain": case.get("full_drain", False)}
+    bufs = []
+    return dcase, {"obs": out, "bufs": bufs, "panic": obs.get("panic")}, problems
+
+
+def gen_sim(rng):
+    tick = 1000000
+    lat = rng.choice([None, 0, 500000, 1000000, 1500000, 2000000, 3000000])
+    nfiles = rng.choice([1, 2])
+    cfg = {"mode": "sim", "seed": rng.randrange(1 << 30), "lat_ns": lat, "tick_ns": tick, "nfiles": nfiles, "cache": None}
+    L = lat or 0
+    wait_steps = (L + tick - 1) // tick + 1
+    steps = []
+    ud = [10]
+
+    def boot():
+        return {"fds": 0, "rings": [], "up": True}
+
+    b = boot()
+    nsteps = rng.randrange(6, 16)
+    crashed = False
+    k = 0
+    while k < nsteps:
+        cmds = []
+        ctl = None
+        if crashed:
+            if rng.random() < 0.5:
+                ctl = "bounce"
+                crashed = False
+                b = boot()
+            else:
+                steps.append({"ctl": None, "cmds": []})
+                k += 1
+                continue
+        elif k > 2 and rng.random() < 0.12:
+            steps.append({"ctl": "crash", "cmds": []})
+            crashed = True
+            k += 1
+            continue
+        if b["fds"] == 0 or rng.random() < 0.1:
+            cmds.append(["open", rng.randrange(nfiles), rng.choice(["rw", "rw", "rw", "r", "w"])])
+            b["fds"] += 1
+        if not b["rings"] or rng.random() < 0.05:
+            e = rng.choice([1, 2, 4, 8])
+            cmds.append(["new", e])
+            b["rings"].append({"depth": pow2ceil(e), "out": 0})
+        r = rng.randrange(len(b["rings"]))
+        ring = b["rings"][r]
+        npush = rng.choice([0, 1, 1, 2, 3])
+        pushed = 0
+        for _ in range(npush):
+            ud[0] += 1
+            fd = rng.randrange(b["fds"]) if rng.random() < 0.9 else 100
+            x = rng.random()
+            if x < 0.35:
+                op = ["read", fd, rng.choice([0, 1, 2, 4]), rng.choice([1, 2, 4, 6])]
+            elif x < 0.7:
+                op = ["write", fd, rng.choice([0, 1, 3, 5]), [rng.randrange(1, 256) for _ in range(rng.choice([1, 2, 3, 5]))]]
+            elif x < 0.85:
+                op = ["fsync", fd]
+            else:
+                op = ["cancel", ud[0] - rng.choice([1, 2, 3])]
+            cmds.append(["push", r, op, ud[0], rng.choice([0, 0, 0, 0, 16, 4])])
+            pushed += 1
+        if pushed and rng.random() < 0.9:
+            cmds.append(["submit", r, 0])
+            ring["out"] += min(pushed, ring["depth"])
+        y = rng.random()
+        if y < 0.35 and ring["out"] > 0:
+            cmds.append(["await_cqe", r])
+            ring["out"] -= 1
+            steps.append({"ctl": ctl, "cmds": cmds})
+            k += 1
+            for _ in range(wait_steps):
+                steps.append({"ctl": None, "cmds": []})
+                k += 1
+            continue
+        if y < 0.7:
+            cmds += [["cq_new", r], ["sync", r]] + [["next", r]] * rng.choice([1, 2, 4])
+            ring["out"] = max(0, ring["out"] - 1)
+        if rng.random() < 0.15:
+            cmds.append(["dump", rng.randrange(nfiles)])
+        if rng.random() < 0.1:
+            cmds.append(["ssync", rng.randrange(b["fds"])])
+        steps.append({"ctl": ctl, "cmds": cmds})
+        k += 1
+    # final drain after the latency has surely elapsed (if the host is up)
+    if not crashed:
+        for _ in range(wait_steps):
+            steps.append({"ctl": None, "cmds": []})
+        cmds = []
+        for r in range(len(b["rings"])):
+            cmds += [["cq_new", r], ["sync", r]] + [["next", r]] * 12
+        for f in range(nfiles):
+            cmds.append(["dump", f])
+        steps.append({"ctl": None, "cmds": cmds})
+    return {"cfg": cfg, "script": steps, "flavour": "sim", "full_drain": False}
+
+
 def histogram(cases):
     h = {"cases": len(cases), "cmds": {}, "ops": {}, "flags": {"ok": 0, "rejected": 0}, "latency": {}, "cache": 0,
          "modes": {}, "full_drain": 0}
